@@ -522,6 +522,9 @@ def run_xp(ctx, xh, xm, found, texts, report, replay_group=None):
             if oracle == "O7-replace-groups":
                 found.setdefault("F31", []).append(("xp", line, detail))
                 continue
+            if oracle == "F33-headchar":
+                found.setdefault("F33", []).append(("xp", line, detail))
+                continue
             report("xp-" + oracle, {"request": line, "oracle": oracle, "detail": detail,
                                     "xp_group": {k: g[k] for k in ("kind", "pat", "opts", "subj", "deco", "plain", "ngroups")},
                                     "what": "non-schema API: metamorphic oracle %s violated (see gen/C11_xp.py)" % oracle})
@@ -844,6 +847,9 @@ def run(ctx):
                "a later match keeps the previous match's positions: (b)|c on \"bcb\" with replacement [$0|$1] gives [c|b]",
         "F32": "option i and a character class that ends up empty (e.g. [a-[a]]): RangeToken::getCaseInsensitiveToken loops "
                "to fElemCount - 1 with unsigned fElemCount == 0 and writes past its buffer; the constructor crashes",
+        "F33": "the first-character pre-filter (switched off by option H) is not a necessary condition: a union containing '.' "
+               "loses FC_ANY in Token::analyzeFirstCharacter, a literal starting with a supplementary character contributes its high "
+               "surrogate, and Context::nextCh leaves matchStart on the low surrogate: (a|.)b misses \"zb\", [b-U+10000]+ misses U+10000",
         "F30": "malformed schema-mode expressions rejected with the wrong exception: `\\1` throws RuntimeException, an "
                "unpaired high surrogate throws a bare XMLErrs code instead of ParseException",
     }
